@@ -1,6 +1,6 @@
 (* C12 — linear combinations behave as the matrices they denote (Model/Linear.v, exact Gaussian-integer
    coefficients; floating-point tolerances and formatting are not modelled).  For every n and all term lists. *)
-From PauLie Require Import Pauli Matrix MatrixT Linear LinearT.
+From PauLie Require Import Pauli Matrix MatrixT Linear LinearT LeqT.
 
 Theorem C12_matmul : forall n a b r c, all_n n a -> all_n n b -> length r = n -> length c = n ->
   denote (lmatmul a b) r c = mmul n (denote a) (denote b) r c.
@@ -32,6 +32,11 @@ Theorem C12_eq_matrices : forall n a b, all_n n a -> all_n n b ->
   (meq n (denote a) (denote b) <-> forall p, length p = n -> coef a p = coef b p).
 Proof. exact denote_eq_iff_coef. Qed.
 Print Assumptions C12_eq_matrices.
+(* __eq__ itself (both sides simplified, every term looked up in the other side) decides equality of the matrices *)
+Theorem C12_eq_iff : forall n a b, a <> [] -> b <> [] -> all_n n a -> all_n n b ->
+  (leq a b = true <-> meq n (denote a) (denote b)).
+Proof. exact leq_iff. Qed.
+Print Assumptions C12_eq_iff.
 
 (* the pinned snapshot, refuted on its own model *)
 Theorem C12_refuted_snapshot :
